@@ -155,6 +155,23 @@ def oracle_model(args):
             if err > tol:
                 problems.append("dV[%d] is not dV/dx_%d of V (max error %.3g)" % (k, k, err))
                 break
+    # "... at a position": V(x) and dV(x) are functions of x. The same call after the model evaluated OTHER points (the stencil above,
+    # a far point), and the first call on a fresh model object (dV before any V), have to give the same matrices
+    if dV.shape == (n,) + V.shape:
+        far = x + 0.37 + 0.11 * np.arange(n)
+        model.V(far)
+        dV_after_far_V = np.asarray(model.dV(x))
+        model.dV(far)
+        V_after_far_dV = np.asarray(model.V(x))
+        fresh = make_model(args)
+        dV_first = np.asarray(fresh.dV(x))
+        V_after = np.asarray(fresh.V(x))
+        for nm_, a_, b_ in (("dV(x) after V was evaluated elsewhere", dV_after_far_V, dV), ("V(x) after dV was evaluated elsewhere", V_after_far_dV, V),
+                            ("dV(x) as the first call on a fresh model", dV_first, dV), ("V(x) after dV(x) on a fresh model", V_after, V)):
+            if a_.shape != b_.shape or not np.array_equal(a_, b_):
+                problems.append("%s differs from the value at the same x (max %.3g): the result depends on the call history"
+                                % (nm_, float(np.max(np.abs(a_ - b_))) if a_.shape == b_.shape else float("nan")))
+                break
     dc = np.asarray(el.derivative_coupling_tensor())
     fm = np.asarray(el.force_matrix())
     force = np.array([el.force(i) for i in range(N)])
